@@ -38,7 +38,17 @@ def stop_to_line(spec):
 
 
 def run_impl(gd: GDef, cfg: dict, opts: dict, starts=None, stop=None, limit_s=60):
-    """Runs the real BFS. Returns canonical dict (or {'error': repr})."""
+    """Runs the real BFS. Returns canonical dict (or {'error': repr}).  A timeout is retried once with a much longer
+    limit (a loaded machine or a tiny batch size on a big orbit is slow, not wrong); only a second timeout is reported."""
+    out = _run_impl(gd, cfg, opts, starts, stop, limit_s)
+    if "error" in out and out["error"].startswith("Timeout"):
+        out = _run_impl(gd, cfg, opts, starts, stop, limit_s * 8 + 120)
+        if "error" not in out:
+            out["slow"] = True
+    return out
+
+
+def _run_impl(gd: GDef, cfg: dict, opts: dict, starts=None, stop=None, limit_s=60):
     drain_events()
     try:
         with time_limit(limit_s):
